@@ -74,7 +74,7 @@ namespace internal
 		{
 			typedef decltype(codeGetter(begin)) Code;
 			pvSort<Code>(begin, count, codeGetter, iterSwapper, groupFunc,
-				8 * sizeof(Code) - radixSize);
+				(8 * sizeof(Code) > radixSize) ? 8 * sizeof(Code) - radixSize : 0);
 		}
 
 	private:
